@@ -440,12 +440,62 @@ def run(ctx):
         if kf == "1":
             nv = semantic_check(ctx, e, st, out, datasets)
             ctx.count("semantic_nonvacuous_datasets", str(nv))
+    regraft_cases(ctx, qs)
     for e in cs[:2] + qs[7:11]:
         ctx.sample({"input": bridge.dump(e), "output": bridge.dump(impl(e)[1])})
 
 
+def regraft_one(ctx, e, graft: str, ti: int):
+    """-> None if not applicable, else (ok, description)"""
+    st, out = impl(e)
+    if st != "ok" or not isinstance(out, ast.AST):
+        return None
+    targets = [x for x in ast.walk(out) if isinstance(x, ast.Call) and isinstance(x.func, ast.Name) and x.func.id in KNOWN and x.args]
+    if not targets:
+        return None
+    t = targets[ti % len(targets)]
+    g = ast.parse(graft, mode="eval").body
+    lam = [a for a in t.args if isinstance(a, ast.Lambda)]
+    if lam:
+        lam[0].body = g          # as resolve_syntatic_sugar does with a lowered comprehension
+    else:
+        t.args.append(g)
+    edited = ast.unparse(out)
+    want = spec(copy.deepcopy(out), KNOWN, keep_kw=True)
+    st2, out2 = impl(out)
+    if st2 != "ok":
+        return False, "%s -> raises %s" % (edited, out2)
+    if dump(out2) != dump(want):
+        return False, "%s -> %s ; the same tree freshly parsed gives %s" % (edited, ast.unparse(out2), ast.unparse(want))
+    return True, ""
+
+
+def regraft_cases(ctx, qs):
+    """The result depends on the tree only, not on what happened to its nodes before: the OUTPUT of one application gets a
+    method-form operator call put below one of its (already converted) calls - as resolve_syntatic_sugar does when it lowers
+    a comprehension between two backend passes - and is converted again."""
+    graft_src = ["s.Where(lambda j: j > 30).Select(lambda j: j * 2)", "e.jets.Count()", "t.First().Select(lambda k: k)"]
+    n = 0
+    for e in qs[:ctx.budget(150, 1500)]:
+        graft, ti = ctx.rng.choice(graft_src), ctx.rng.randrange(8)
+        r = regraft_one(ctx, e, graft, ti)
+        if r is None:
+            continue
+        ctx.evaluations += 1
+        n += 1
+        if not r[0]:
+            ctx.fail("failing-input", "a converted query edited below a converted call and converted again: " + r[1],
+                     {"oracle": "regraft", "expr_dump": dump(e), "graft": graft, "target": ti}, key=core.digest({"p": ID, "regraft": dump(e)}))
+    ctx.count("kind", "regraft:%d" % n)
+
+
 def replay(ctx, w):
     e = eval(w["expr_dump"], dict(vars(ast)))
+    if w.get("oracle") == "regraft":
+        r = regraft_one(ctx, e, w["graft"], w["target"])
+        if r is not None and not r[0]:
+            ctx.fail("failing-input", "still fails: " + r[1], w)
+        return
     names = w.get("names") or KNOWN
     st, out = impl(e, None if names is KNOWN else names)
     if w.get("oracle") == "semantic":
